@@ -329,6 +329,17 @@ Definition wrapper_ok (r : wrapper_row) : bool :=
   String.eqb (w_method r) ("get" ++ w_field r) && str_mem (w_field r) ["B"; "H"; "J"; "M"]%string &&
   forallb (flag_ok r) level2_flags && Nat.eqb (List.length (w_kw r)) 5 && roles_ok r.
 
+(* every parameter of an entry point is used: it is a role (sources / observers of the module functions; the star
+   argument is a role by construction) or it is passed to getBH_level2 under its own name; and nothing but the five
+   flags (and `field`) is passed *)
+Definition role_params (r : wrapper_row) : list string :=
+  if String.eqb (w_owner r) "" then ["sources"; "observers"]%string else [].
+Definition passes_param (r : wrapper_row) (p : string) : bool :=
+  existsb (fun kw => String.eqb (fst kw) p && warg_eqb (snd kw) (WParam p)) (w_kw r).
+Definition params_forwarded (r : wrapper_row) : bool :=
+  forallb (fun pd => str_mem (fst pd) (role_params r) || passes_param r (fst pd)) (w_params r) &&
+  forallb (fun kw => str_mem (fst kw) (map fst level2_flags)) (w_kw r).
+
 Definition expected_wrappers : list (string * string) :=
   flat_map (fun o => map (fun m => (o, m)) ["getB"; "getH"; "getJ"; "getM"]%string)
            [""; "BaseSource"; "Sensor"; "BaseCollection"]%string.
